@@ -2,14 +2,14 @@ package exec
 
 import (
 	"fmt"
-	"os"
-	"sync"
-	"text/template/parse"
 	"go/token"
 	"go/types"
+	"os"
 	"sort"
 	"strconv"
 	"strings"
+	"sync"
+	"text/template/parse"
 	"time"
 
 	"golang.org/x/tools/go/ssa"
@@ -26,7 +26,7 @@ type Program struct {
 	LazyInit  map[string]bool          // packages whose init may run lazily on first global access
 	Tier      string
 	ModelsPkg *ssa.Package
-	ApiPath   string // import path of the harness API package
+	ApiPath   string          // import path of the harness API package
 	Summarize map[string]bool // functions explored as merged pure-callee summaries
 	TreeMu    sync.Mutex
 	TreeCache map[string]*parse.Tree
@@ -92,9 +92,9 @@ type AssertEval struct {
 
 type Stats struct {
 	Paths, Steps, Forks, FeasQueries, AssertQueries, Unknown, CacheHits, Summaries, SummaryHits int
-	FuncsEncoded                                             map[string]int
-	NotEnc                                                   map[string]int
-	Unwind                                                   int
+	FuncsEncoded                                                                                map[string]int
+	NotEnc                                                                                      map[string]int
+	Unwind                                                                                      int
 }
 
 type frame struct {
@@ -116,47 +116,47 @@ type Machine struct {
 	solver *smt.Solver
 
 	// per path
-	pc        []*sym.Term
-	pcSet     map[int]bool
-	trace     []int
-	pos       int
-	pending   [][]int
-	globals   map[*ssa.Global]*Cell
-	inited    map[*ssa.Package]bool
-	cellSeq   int
-	mapSeq    int
-	inputs    []Input
-	nameCount map[string]int
-	reached   []string
-	steps     int
-	forks     int
-	depth     int
-	lenient   int // >0 while running a lazy package init
-	observed  []Observation
-	asserts   []AssertEval
-	hashApps  []hashApp
-	ext       map[string]interface{} // per-path scratch for intrinsics
+	pc            []*sym.Term
+	pcSet         map[int]bool
+	trace         []int
+	pos           int
+	pending       [][]int
+	globals       map[*ssa.Global]*Cell
+	inited        map[*ssa.Package]bool
+	cellSeq       int
+	mapSeq        int
+	inputs        []Input
+	nameCount     map[string]int
+	reached       []string
+	steps         int
+	forks         int
+	depth         int
+	lenient       int // >0 while running a lazy package init
+	observed      []Observation
+	asserts       []AssertEval
+	hashApps      []hashApp
+	ext           map[string]interface{} // per-path scratch for intrinsics
 	curDeferFrame *frame
 	initDirect    bool
 	permuteMaps   bool
 	clockReads    []*sym.Term
 
-	emptyStr   *Str
-	strCache   map[string]*Str
-	fnInfo     map[*ssa.Function]*fnInfo
-	methCache  map[methKey]*ssa.Function
-	constCache map[*ssa.Const]Value
-	pkgCache   map[string]*ssa.Package
-	varCache   map[int][]int
-	layouts    map[*ssa.Function]map[ssa.Value]int
-	varByID    map[int]*sym.Term
-	varUB      map[int]uint64
-	varLB      map[int]uint64
-	qcache     map[string]bool
-	acache     map[string]smt.Result
-	sumMemo    map[string]*summary
-	sumDepth   int
-	stack      []string
+	emptyStr     *Str
+	strCache     map[string]*Str
+	fnInfo       map[*ssa.Function]*fnInfo
+	methCache    map[methKey]*ssa.Function
+	constCache   map[*ssa.Const]Value
+	pkgCache     map[string]*ssa.Package
+	varCache     map[int][]int
+	layouts      map[*ssa.Function]map[ssa.Value]int
+	varByID      map[int]*sym.Term
+	varUB        map[int]uint64
+	varLB        map[int]uint64
+	qcache       map[string]bool
+	acache       map[string]smt.Result
+	sumMemo      map[string]*summary
+	sumDepth     int
+	stack        []string
 	writes       []writeRec
 	writeLogOn   bool
 	watchGlobals bool
@@ -626,9 +626,10 @@ func (m *Machine) feasibleRel(extra *sym.Term) bool {
 		m.Stats.Unknown++
 	}
 	res := r != smt.Unsat
-	if len(m.qcache) < 2_000_000 {
-		m.qcache[key] = res
+	if len(m.qcache) > 400_000 {
+		m.qcache = map[string]bool{} // bounded memory: start over
 	}
+	m.qcache[key] = res
 	return res
 }
 
